@@ -8,40 +8,51 @@ DERIV_ROUTES = ["DL", "DE", "DA"]
 EARLY = {"PE", "PA", "DE", "DA", "FCE", "FCAE", "FATE"}     # routes that go through simplification
 
 
-def run_route(name: str, e, x, p):
-    """x: variable name or Variable object"""
-    def go():
-        if name == "PL":
-            return sm.Partial(e, x).at(p)
-        if name == "PE":
-            return sm.Partial(e, x, compute_early=True).at(p)
-        if name == "PA":
+def run_route(name: str, e, x, p, warm=()):
+    """x: variable name or Variable object; warm: points the route's own long-lived object (the
+    Partial / Derivative / Differential) is asked about before p — answers there are discarded"""
+    def make():
+        if name in ("PL", "PA"):
             P = sm.Partial(e, x)
-            P.as_expression()
-            return P.at(p)
-        if name == "DL":
-            return sm.Derivative(e).at(p)
-        if name == "DE":
-            return sm.Derivative(e, compute_early=True).at(p)
-        if name == "DA":
+            if name == "PA":
+                P.as_expression()
+            return P
+        if name == "PE":
+            return sm.Partial(e, x, compute_early=True)
+        if name in ("DL", "DA"):
             D = sm.Derivative(e)
-            D.as_expression()
-            return D.at(p)
-        if name == "FCL":
-            return sm.Differential(e).component(x).at(p)
-        if name == "FCE":
-            return sm.Differential(e, compute_early=True).component(x).at(p)
-        if name == "FCAL":
-            return sm.Differential(e).component_at(x, p)
-        if name == "FCAE":
-            return sm.Differential(e, compute_early=True).component_at(x, p)
-        if name == "FATL":
-            return sm.Differential(e).at(p).component(x)
-        if name == "FATE":
-            return sm.Differential(e, compute_early=True).at(p).component(x)
+            if name == "DA":
+                D.as_expression()
+            return D
+        if name == "DE":
+            return sm.Derivative(e, compute_early=True)
+        if name in ("FCL", "FCAL", "FATL"):
+            return sm.Differential(e)
+        if name in ("FCE", "FCAE", "FATE"):
+            return sm.Differential(e, compute_early=True)
         if name == "LD":
-            return sm.LocatedDifferential(e, p).component(x)
+            return None
         raise ValueError(name)
+
+    def use(obj, q):
+        if name in ("PL", "PE", "PA", "DL", "DE", "DA"):
+            return obj.at(q)
+        if name in ("FCL", "FCE"):
+            return obj.component(x).at(q)
+        if name in ("FCAL", "FCAE"):
+            return obj.component_at(x, q)
+        if name in ("FATL", "FATE"):
+            return obj.at(q).component(x)
+        return sm.LocatedDifferential(e, q).component(x)
+
+    def go():
+        obj = make()
+        for q in warm:
+            try:
+                use(obj, q)
+            except Exception:  # noqa: BLE001 - whatever happens there is not what is asked
+                pass
+        return use(obj, p)
     return call(go, timeout=20)
 
 
